@@ -751,6 +751,10 @@ class Saver:
 
                 for chunk in chunks:
                     new_f = self.save(chunk=chunk, chunk_i=chunk_i, executor=executor)
+                    for f in pending:
+                        # A write that failed in the executor must not go unnoticed
+                        if f.done() and f.exception() is not None:
+                            raise f.exception()
                     pending = [f for f in pending if not f.done()]
                     if new_f is not None:
                         pending += [new_f]
@@ -813,12 +817,17 @@ class Saver:
             done, not_done = wait(wait_for, timeout=self.timeout)
             if len(not_done):
                 raise RuntimeError(f"{len(not_done)} futures of {self.md} did notcomplete in time!")
+            for f in done:
+                if f.exception() is not None and self.got_exception is None:
+                    self.got_exception = f.exception()
 
         self.closed = True
 
         exc_info = strax.formatted_exception()
         if exc_info:
             self.md["exception"] = exc_info
+        elif self.got_exception is not None:
+            self.md["exception"] = repr(self.got_exception)
 
         if self.md["chunks"]:
             # Update to precise start and end values
@@ -829,7 +838,13 @@ class Saver:
 
         self.md["writing_ended"] = time.time()
 
-        self._close()
+        try:
+            self._close()
+        except Exception as e:
+            # Make sure the processor learns about a failed close
+            if self.got_exception is None:
+                self.got_exception = e
+            raise
 
     ##
     # Abstract methods (to override in child)
